@@ -134,6 +134,8 @@ def selftest_walk(ctx, binary, cases, col):
         ctx.note("self-test skipped: no case passed")
         return
     probe = dict(cases[passed[len(passed) // 2]], id=0, corrupt=1)
+    if len(probe.get("dens") or []) > 24:
+        probe["only"] = list(range(24))
     pv = ctx.run_cases(binary, "walk", [probe], workers=1, name="selftest", timeout_ms=900000)
     if pv[0].get("ok") or not isinstance(pv[0].get("obs"), list):
         raise Inconclusive("self-test: a falsified expectation was not noticed by the adapter: %r" % (pv[0].get("key"),))
